@@ -308,10 +308,12 @@ class Endpoint:
                                 return self._reply(200, "application/rdf+xml", res.graph.serialize(format="xml", encoding="utf-8"))
                             if JSON_MT in acc and XML_MT not in acc:
                                 entry["format"] = "json"
-                                return self._reply(200, JSON_MT, results_json(res))
+                                entry["res_body"] = results_json(res)      # the document sent (result-layer tie)
+                                return self._reply(200, JSON_MT, entry["res_body"])
                             if XML_MT in acc or "*/*" in acc or not acc:
                                 entry["format"] = "xml"
-                                return self._reply(200, XML_MT + "; charset=utf-8", results_xml(res))
+                                entry["res_body"] = results_xml(res)
+                                return self._reply(200, XML_MT + "; charset=utf-8", entry["res_body"])
                             return self._reply(406, "text/plain", b"not acceptable")
                         elif path == "/update":
                             if method != "POST":
